@@ -116,6 +116,11 @@ CANON = [
     ("http-long", "GET /" + "a" * 70000 + " HTTP/1.0"), ("gopherp-long", "/" + "b" * 70000 + "\t+"),
     ("spartan-long", "h /" + "c" * 66000 + " 0"), ("gemini-long", "gemini://h/" + "d" * 70000),
     ("http-8k", "GET /" + "a" * 8200 + " HTTP/1.0"), ("gopherp-8k", "/" + "b" * 8200 + "\t$"),
+    # empty first / last TAB-separated fields next to a Gopher+ marker
+    ("gopher-plus-then-empty", "/docs\t+\t"), ("gopher-bang-then-empty", "/docs\t!\t"),
+    ("gopher-search-plus-then-empty", "/docs\tquery\t+\t"), ("gopher-dollar-then-empty", "/docs\t$\t"),
+    ("gopherp-leading-tab", "\t+"), ("gopherp-two-leading-tabs", "\t\t+"), ("gopher-trailing-space-plus", "/docs\t+ "),
+    ("gopherp-leading-space", " /docs\t+"),
 ]
 HEADER_VARIANTS = {
     "none": [],
@@ -158,6 +163,10 @@ def _conn(rng, label, line, tls, hv):
         cut = rng.randrange(2, nline)
         segs = [cut]
         delays = [0.0, rng.choice([61.0, 75.0, 200.0])]
+    elif rng.random() < 0.04:
+        # the client connects and stays silent for longer than the timeout before its first byte
+        segs = []
+        delays = [rng.choice([61.0, 90.0, 110.0])]
     return {"label": label, "line": line, "eol": eol, "tls": tls, "hv": hv, "raw": raw,
             "segments": segs, "delays": delays, "half_close": rng.random() < 0.8}
 
@@ -268,6 +277,16 @@ def execute(sc, tape=None):
                 if wrapped:
                     counters["tls_wrapped"] = counters.get("tls_wrapped", 0) + 1
                 sig = {"label": cn["label"], "variant": sc["variant"]}
+                if cn["delays"] and cn["delays"][0] > 60.0:
+                    # nothing arrived within the timeout: the connection is over before it began - no TLS
+                    # session, no protocol, no answer (in particular no plaintext answer to a late TLS hello)
+                    counters["silent_past_the_timeout"] = counters.get("silent_past_the_timeout", 0) + 1
+                    if wrapped or pcs or bytes(c.s2c):
+                        viol = {"oracle": "late-first-byte-dropped", "signature": dict(sig, oracle="late-first-byte-dropped"),
+                                "detail": "first byte %.0f s after connecting (timeout 60): wrapped=%s protocol=%r response=%r" % (
+                                    cn["delays"][0], wrapped, pcs[-1][1] if pcs else None, bytes(c.s2c)[:60])}
+                        break
+                    continue
                 first = raw[:1] if not cn["tls"] else b"\x16"
                 if first == b"\x16" and not sc["context"]:
                     counters["byte_0x16_without_context"] = counters.get("byte_0x16_without_context", 0) + 1
